@@ -101,7 +101,7 @@ pub fn run(cfg: &RunCfg) -> i32 {
             &crate::fuzzrun::Campaign {
                 target: "store_ops",
                 server_feature: true,
-                runs: (2_000_000.0 * cfg.scale) as u64,
+                runs: (400_000.0 * cfg.scale) as u64,
                 max_len: 400,
                 rule: "coverage guided libFuzzer campaign: bytes are decoded (arbitrary::Unstructured) into a history of up to 60 requests that runs through the same interpreter and reference-model oracle (full read-back, events, ls-subscriptions, folds); evaluations = executed inputs, distinct non-trivial = inputs that reached new coverage",
             },
